@@ -167,8 +167,13 @@ def c08():
               "600 virtual seconds (intervals read from the socket), is judged at the next idle point (an in-flight poll may "
               "finish), and then the client must be ESTABLISHED with records equal to the cache's current data set (router keys "
               "left out under version 0). Spin monitor: > 10000 transport calls without virtual time advancing or input being "
-              "consumed. Cache behaviours after the faults: v1, v0 answering in v0, v0 answering Unsupported-Version, v0 that "
-              "hangs up. Distinct by scenario trace hash."),
+              "consumed; query-storm monitor: 3000 queries in one virtual second. Deadlock monitor: the driver looks at the FSM thread "
+              "once per second while it waits for it; no transport call, no CPU time and kernel state S (never R) at 25 consecutive "
+              "looks - with the driver being the only other thread nobody is left to wake it - is reported as blocked. Cache "
+              "behaviours after the faults: v1, v0 answering in v0, v0 answering Unsupported-Version, v0 that hangs up. One expiry "
+              "scenario in four runs without other sources' records (tables empty after the purge); one conversation in nine gets "
+              "an unsolicited prefix PDU whose header arrives 1-3 s before the first refresh deadline and whose rest arrives 3-7 s "
+              "later, then new data. Distinct by scenario trace hash."),
         assumptions=SIM_ASSUME + ["liveness is decided only in its bounded form; the horizon is stated in the rule"],
     )
 
@@ -293,7 +298,9 @@ def c02():
         rule=(PFX_RULE + "Oracle: the model is a set of 5-tuples (prefix, len, max-len, AS, source); every operation's return code must be "
               "the model's (SUCCESS / DUPLICATE_RECORD / RECORD_NOT_FOUND) and after EVERY operation the concatenation of "
               "pfx_table_for_each_ipv4_record and _ipv6_record must equal the model as a multiset with all five fields intact (and each "
-              "enumerator must only yield its own family). Near-duplicates differing in exactly one field are generated on purpose. "
+              "enumerator must only yield its own family). Near-duplicates differing in exactly one field are generated on purpose; in one "
+              "case of eight half of the records carry bits behind their prefix length (tails 1, 2, 3, top bit, all ones), so that records "
+              "differing only there must stay distinct. "
               "Non-trivial = history in which a removal shrank a table that stayed non-empty; distinct by hash of the operation history."),
         assumptions=TAB_ASSUME,
     )
